@@ -41,7 +41,7 @@ Notation fshed := (shed float).
 Inductive xsop := XAllow (cpu : Z) | XPass (i : nat) | XFail (i : nat) | XAdv (dt : Z).
 
 Record srow := mkrow {
-  r_adm : Z;            (* -1 not an Allow, 0 dropped, 1 admitted *)
+  r_adm : Z;            (* -1 not an Allow, 0 dropped, 1 let_in *)
   r_flying : Z;
   r_m : Z; r_e : Z;     (* avgFlying = r_m * 2^r_e *)
   r_dropped : bool;
